@@ -978,9 +978,21 @@ def check(prog, rep):
     check_driver(prog, rep, kern, line, cs)
     check_direction(prog, rep, impl.module)
     # target values and max distance handed to the kernel
-    t_all = {T(s) for s in impl.own_nodes() if isinstance(s, ast.Assign)}
-    ok = 'target_values=np.asarray(target_values)' in t_all and any(
-        isinstance(n, ast.If) and T(n.test) == 'max_distanceisNone' and T(n.body[0]) == 'max_distance=np.inf' for n in impl.own_nodes())
+    # as wrapper terms (however the defaults are spelled, here or in a helper): what the names the kernel closes over hold
+    from ..wterm import WT as _WT, key as _tk
+    tvp = next((p_ for p_ in impl.params if 'target' in p_), None)
+    mdp = next((p_ for p_ in impl.params if 'max_distance' in p_ or p_ == 'max_dist'), None)
+    w_ = _WT(prog, depth=4)
+    w_.run(impl)
+    tv_, md_ = w_.env.get(tvp), w_.env.get(mdp)
+    ok_tv = tv_ is not None and tv_[0] == 'call' and tv_[1] in ('numpy.asarray', 'numpy.array') and tv_[2] and tv_[2][0] == ('param', tvp)
+    ok_md = False
+    if md_ is not None and md_[0] == 'phi' and md_[1][0] == 'cmp' and md_[1][1] in ('Is', 'IsNot', 'Eq', 'NotEq') and \
+            {_tk(md_[1][2]), _tk(md_[1][3])} == {_tk(('const', None)), _tk(('param', mdp))}:
+        is_none_first = md_[1][1] in ('Is', 'Eq')
+        a_, b_ = (md_[2], md_[3]) if is_none_first else (md_[3], md_[2])
+        ok_md = a_ in (('global', 'np.inf'), ('global', 'numpy.inf'), ('global', 'math.inf')) and b_ == ('param', mdp)
+    ok = ok_tv and ok_md
     rep.add('X6', impl, 'proximity', 'target_values as array; max_distance None -> inf', impl.node.lineno, ok,
             'an absent max_distance means unbounded')
     # the statement is backend-neutral: on Dask rasters each chunk must see a halo of max_distance (rules of C07)
